@@ -133,6 +133,7 @@ package chainexchange
 //@   ensures[caches_of_other_instances_are_untouched] forall(uint64(k), k != instance ==> has(p.chainsWanted, k) == old(has(p.chainsWanted, k)) && p.chainsWanted[k] == old(p.chainsWanted[k]), trigger(p.chainsWanted[k]))
 //@   at newChainPortionCache 1
 //@     before[a_new_wanted_cache_has_the_wanted_capacity] arg(1) == p.maxWantedChainsPerInstance
+//@     before[lookup_creation_and_registration_are_one_critical_section] dominatedBy(Lock, 1) && !called(Unlock, 1) && !called(Unlock, 2)
 
 //@ func (*PubSubChainExchange).getChainsDiscoveredAt
 //@   property C18
@@ -143,6 +144,7 @@ package chainexchange
 //@   ensures[caches_of_other_instances_are_untouched] forall(uint64(k), k != instance ==> has(p.chainsDiscovered, k) == old(has(p.chainsDiscovered, k)) && p.chainsDiscovered[k] == old(p.chainsDiscovered[k]), trigger(p.chainsDiscovered[k]))
 //@   at newChainPortionCache 1
 //@     before[a_new_discovered_cache_has_the_discovered_capacity] arg(1) == p.maxDiscoveredChainsPerInstance
+//@     before[lookup_creation_and_registration_are_one_critical_section] dominatedBy(Lock, 1) && !called(Unlock, 1) && !called(Unlock, 2)
 
 // An own broadcast is queued for caching as wanted (the node asked for it by proposing it) and what is published is
 // the encoding of exactly that message.
@@ -154,3 +156,31 @@ package chainexchange
 //@     before[the_message_itself_is_encoded] *arg(0) == msg && recv() == p.encoding
 //@   at Publish 1
 //@     before[what_is_published_is_that_encoding] arg(2) == res(Encode, 1, 0) && res(Encode, 1, 1) == nil && arg(0) == p.topic
+
+// Start wires the pieces of the property together: the validator proved above is the one registered for the topic, and
+// the two caching loops (admitted broadcasts -> discovered cache, own broadcasts -> wanted cache) run on a context of
+// their own, so they keep caching for as long as the exchange runs, whatever happens to the caller's start context.
+//@ func (*PubSubChainExchange).Start
+//@   property C18
+//@   modifies auto
+//@   maypanic
+//@   at RegisterTopicValidator 1
+//@     before[the_admission_rule_is_the_registered_validator] arg(1) == p.topicName && arg(0) == p.pubsub
+//@   at WithCancel 1
+//@     before[the_caching_loops_outlive_the_callers_start_context] arg(0) == res(Background, 1)
+
+// The loop over admitted broadcasts: every admitted message is cached as discovered, as the message the validator attached.
+//@ func (*PubSubChainExchange).Start$1
+//@   property C18
+//@   modifies auto
+//@   maypanic
+//@   at cacheAsDiscoveredChain 1
+//@     before[every_admitted_broadcast_is_cached] arg(0) == p && res(Next, 1, 1) == nil && arg(1) == ctx
+
+// The loop over own broadcasts: each is cached as wanted.
+//@ func (*PubSubChainExchange).Start$2
+//@   property C18
+//@   modifies auto
+//@   maypanic
+//@   at cacheAsWantedChain 1
+//@     before[every_own_broadcast_is_cached_as_wanted] arg(0) == p && arg(1) == ctx
